@@ -1182,8 +1182,35 @@ class Interp:
                 if cl.startswith("ghost:"):
                     self.exec_ghost(cl[6:], env)
                     continue
+                if cl.startswith("define:"):
+                    self.define_abbrev(cl[7:], nm, env, "%s/assert-after:%s#%d" % (c.short, nm, i))
+                    continue
                 self.path.prove(self.eval_spec(cl, env), "%s/assert-after:%s#%d" % (c.short, nm, i), "assert", where=cl,
                                 assume_form=self.eval_spec(cl, env, assume=True))
+
+    def define_abbrev(self, src, var, env, oname):
+        """cut-point clause `define:<uf term> := <defining expr>` after an assignment to local `var`:
+        the uninterpreted-function term is a *name* for the defining expression (the uf is defined by it; facts
+        about the uf must be justified against this definition by an R.lemma).  Obligation: the value just assigned
+        to `var` IS the defining expression -- checked as a validity with an empty path condition, so the definition
+        itself never enters the path condition -- and from here on `var` holds the uf term."""
+        term_src, def_src = src.split(":=", 1)
+        cur = env.lookup(var)
+        t = self.eval_spec_value(term_src.strip(), env)
+        d = self.eval_spec_value(def_src.strip(), env)
+        s = z3.Solver()
+        s.set("timeout", self.ver.timeout_ms)
+        s.add(z3.Not(self.eq(cur, d)))
+        r = s.check()
+        self.ver.obligation_sites.add(oname)
+        self.ver.note_assumption("`%s` abbreviates `%s` (definition of the uninterpreted function)" % (term_src.strip(), def_src.strip()))
+        if r == z3.unsat:
+            self.ver.record(Obligation(oname, "assert", "proved", path=list(self.path.taken), where="define:" + src))
+            env.find_env(var).vars[var] = t
+        else:
+            self.ver.record(Obligation(oname, "assert", "failed" if r == z3.sat else "unknown",
+                                       detail="value of %s is not the defining expression" % var,
+                                       path=list(self.path.taken), where="define:" + src))
 
     def ex_AnnAssign(self, s, env):
         if s.value is None:
